@@ -680,22 +680,48 @@ def d2_definitions(ctx, idx, env):
         c0 = idx.func(MFQ + '.content_if_0d_array')
         bo = param_binds(c0, ['_O'])
         cpaths = expand_paths(c0)
-        if len(cpaths) != 2 or any(p.leaf.kind != 'ret' or len(p.guards) != 1 for p in cpaths):
-            raise AnalysisError('content_if_0d_array: expected two guarded returns')
-        res = nf.UNRECOGNISED
+        # decided over the truth table of the two atoms A = isinstance(obj, ndarray), B = obj.ndim == 0:
+        # .item() exactly on the paths where both are known to hold, the object itself where one is known to fail
+        res = nf.MATCH
+        if not cpaths or any(p.leaf.kind != 'ret' for p in cpaths):
+            raise AnalysisError('content_if_0d_array: a path does not return a value')
         for p in cpaths:
-            pos = classify_def(idx, mod, ['isinstance(_O, np.ndarray) and _O.ndim == 0'], p.guards[0], bo)
-            neg = classify_def(idx, mod, ['not (isinstance(_O, np.ndarray) and _O.ndim == 0)'], p.guards[0], bo)
-            if pos == nf.MATCH:
-                r1 = classify_def(idx, mod, ['_O.item()'], p.leaf.expr, bo)
-            elif neg == nf.MATCH:
-                r1 = classify_def(idx, mod, ['_O'], p.leaf.expr, bo)
-            else:
-                r1 = pos if isinstance(pos, tuple) else (neg if isinstance(neg, tuple) else nf.UNRECOGNISED)
-            if r1 != nf.MATCH:
-                res = r1
+            conj = [c for g in p.guards for c in nf.conjuncts(g)]
+            disj = [d for c in conj for d in ([c] if not (isinstance(c, ast.BoolOp) and isinstance(c.op, ast.Or)) else [])]
+            A = B = None
+            for c in disj:
+                if classify_def(idx, mod, ['isinstance(_O, np.ndarray)'], c, bo) == nf.MATCH:
+                    A = True
+                elif classify_def(idx, mod, ['not isinstance(_O, np.ndarray)'], c, bo) == nf.MATCH:
+                    A = False
+                elif classify_def(idx, mod, ['_O.ndim == 0'], c, bo) == nf.MATCH:
+                    B = True
+                elif classify_def(idx, mod, ['_O.ndim != 0', '_O.ndim > 0', '_O.ndim >= 1'], c, bo) == nf.MATCH:
+                    B = False
+            # a negated conjunction `not (A and B)` leaves both open but is the complement of the item() case
+            neg_both = any(classify_def(idx, mod, ['not (isinstance(_O, np.ndarray) and _O.ndim == 0)'], c, bo) == nf.MATCH for c in conj)
+            is_item = classify_def(idx, mod, ['_O.item()'], p.leaf.expr, bo) == nf.MATCH
+            is_obj = classify_def(idx, mod, ['_O'], p.leaf.expr, bo) == nf.MATCH
+            if is_item:
+                if A is True and B is True:
+                    continue
+                if A is False or B is False or neg_both:
+                    res = ('DIFF', '.item() is returned on a path where the object is not a 0-d array (guards: %s)'
+                           % ' and '.join(unparse(g) for g in p.guards))
+                else:
+                    res = ('DIFF', '.item() is returned without the test that the object is a 0-d numpy array (guards: %s): arrays with '
+                                   'several elements raise ValueError' % (' and '.join(unparse(g) for g in p.guards) or 'none'))
                 break
-            res = nf.MATCH
+            if is_obj:
+                if A is False or B is False or neg_both:
+                    continue
+                if A is True and B is True:
+                    res = ('DIFF', 'a 0-d array is returned unchanged instead of its content')
+                    break
+                res = nf.UNRECOGNISED
+                break
+            res = nf.UNRECOGNISED
+            break
         verdict('mathfuncs.content_if_0d_array', res, c0.loc, 'obj.item() if 0-d array else obj',
                 ' / '.join(short(p.leaf.expr) for p in cpaths), 'the unwrapping of 0-d arrays changed')
         for name, prim in (('real', 'real'), ('imag', 'imag')):
@@ -1289,9 +1315,11 @@ def d4_decorator(ctx, idx, env):
                 validates = any(isinstance(c, ast.Call) and isinstance(c.func, ast.Name) and len(c.args) == 1 for s in t.body
                                 for c in ast.walk(s))
                 appends_none = any(nf.callee_name(c) == 'append' and c.args and isinstance(c.args[0], ast.Constant)
-                                   and c.args[0].value is None for s in t.body for c in ast.walk(s) if isinstance(c, ast.Call))
-                appends_err = any(nf.callee_name(c) == 'append' and c.args and isinstance(c.args[0], ast.Name)
-                                  and c.args[0].id == h.name for h in t.handlers for s in h.body for c in ast.walk(s)
+                                   and c.args[0].value is None for s in list(t.body) + list(t.orelse) for c in ast.walk(s)
+                                   if isinstance(c, ast.Call))
+                appends_err = any(nf.callee_name(c) == 'append' and c.args and not (isinstance(c.args[0], ast.Constant)
+                                                                                   and c.args[0].value is None)
+                                  for h in t.handlers if 'Invalid' in lib.handler_class_names(h) for s in h.body for c in ast.walk(s)
                                   if isinstance(c, ast.Call))
                 if validates and appends_none and appends_err:
                     good = True
@@ -1315,7 +1343,8 @@ def d4_decorator(ctx, idx, env):
             if good:
                 r.ok('make_decorator._func: per-argument validation', 'schema(arg) recorded as None / Invalid per argument%s'
                      % (' (in %s)' % via_helper.name if via_helper is not None else ''), fn.loc)
-            elif unrev or not trys and helpers:
+            elif unrev or helpers or trys:
+                # something validates with Invalid somewhere, but not in a shape this rule knows: an absence is not a violation
                 r.undecided('make_decorator._func: per-argument validation', 'validation of the arguments not recognised', fn.loc)
             else:
                 r.violation('make_decorator._func: per-argument validation',
@@ -1592,7 +1621,20 @@ def d4_evalfn(ctx, idx, env):
                 r.violation('get_number_of_args [nin]', 'objects with an `nin` attribute (numpy ufuncs, random functions) report `%s` '
                             'as their number of arguments' % short(nin[0].leaf.expr), lib.loc(gf, nin[0].leaf.stmt), expected='callable_obj.nin')
         else:
-            r.violation('get_number_of_args [nin]', 'the `nin` attribute of numpy ufuncs / random functions is no longer used: '
+            tried = [t for t in lib.stmts_in(gf.node, ast.Try)
+                     if any(isinstance(x, ast.Return) and nf.classify('_C.nin', x.value, dict(b)) == nf.MATCH for s_ in t.body for x in ast.walk(s_))
+                     and any('AttributeError' in lib.handler_class_names(h) for h in t.handlers)]
+            mentions = any(isinstance(n, ast.Attribute) and n.attr == 'nin' for n in ast.walk(gf.node)) or \
+                any(isinstance(n, ast.Constant) and n.value == 'nin' for n in ast.walk(gf.node))
+            if tried:
+                r.ok('get_number_of_args [nin]', 'returns .nin when present (try / except AttributeError)', lib.loc(gf, tried[0]))
+                # the fallback is what follows the try: analyse the rest of the body on its own
+                after = [s_ for s_ in gf.node.body if s_.lineno > tried[0].end_lineno]
+                rest = nf.decision_paths(after) if after else []
+            elif mentions:
+                r.undecided('get_number_of_args [nin]', 'use of the `nin` attribute not recognised', gf.loc)
+            else:
+                _absent(r, idx, gf, 'get_number_of_args [nin]', 'the `nin` attribute of numpy ufuncs / random functions is no longer used: '
                         'inspect.signature cannot handle ufuncs', gf.loc, expected="if hasattr(callable_obj, 'nin'): return callable_obj.nin")
         if len(rest) == 1 and rest[0].leaf.kind == 'ret':
             pats = ['sum([inspect.signature(_C).parameters[_K].default == inspect.Parameter.empty for _K in inspect.signature(_C).parameters])',
@@ -1782,6 +1824,8 @@ MUTANTS = [
     Mutant('arccot-branch-sign', MF, "        return -np.pi / 2 - np.arctan(val)", "        return np.pi / 2 - np.arctan(val)", 'D2'),
     Mutant('arccot-branch-strictness', MF, "    if np.real(val) < 0:", "    if np.real(val) <= 0:", 'D2'),
     Mutant('kronecker-inverted', MF, "    if x == y:\n        return 1\n    return 0", "    if x == y:\n        return 0\n    return 1", 'D2'),
+    Mutant('content-item-without-0d-test', MF, "    return obj.item() if isinstance(obj, np.ndarray) and obj.ndim == 0 else obj",
+           "    return obj.item() if isinstance(obj, np.ndarray) else obj", 'D2'),
     Mutant('real-keeps-0d-array', MF, "    return content_if_0d_array(np.real(z))", "    return np.real(z)", 'D2'),
     Mutant('constants-by-dict-zip-misaligned', MF, "DEFAULT_VARIABLES = {\n    'i': complex(0, 1),\n    'j': complex(0, 1),\n    'e': np.e,\n    'pi': np.pi\n}",
            "DEFAULT_VARIABLES = dict(zip(('i', 'j', 'pi', 'e'), (complex(0, 1), complex(0, 1), np.e, np.pi)))", 'D3'),
@@ -1878,5 +1922,11 @@ BENIGN = [
     Benign('factorial-gamma-inline', MF, "    value = special.gamma(z+1)\n", "    value = special.gamma(1 + z)\n"),
     Benign('reciprocal-true-divide', MF, "    return np.arccos(1. / val)", "    return np.arccos(np.true_divide(1, val))"),
     Benign('reciprocal-float-power', MF, "    return np.arcsinh(1. / val)", "    return np.arcsinh(val ** -1.0)"),
+    Benign('validation-loop-try-else', SD, "                    try:\n                        schema(arg)\n                        errors.append(None)\n                    except Invalid as error:\n                        errors.append(error)",
+           "                    try:\n                        schema(arg)\n                    except Invalid as error:\n                        errors.append(error)\n                    else:\n                        errors.append(None)"),
+    Benign('content-if-0d-guard-clauses', MF, "    return obj.item() if isinstance(obj, np.ndarray) and obj.ndim == 0 else obj",
+           "    if not isinstance(obj, np.ndarray):\n        return obj\n    if obj.ndim != 0:\n        return obj\n    return obj.item()"),
+    Benign('number-of-args-nin-by-try', GNA, "    if hasattr(callable_obj, \"nin\"):\n        # Matches RandomFunction or numpy ufunc\n        # Sadly, even Py3's inspect.signature can't handle numpy ufunc...\n        return callable_obj.nin\n",
+           "    try:\n        return callable_obj.nin\n    except AttributeError:\n        pass\n"),
     Benign('kronecker-else', MF, "    if x == y:\n        return 1\n    return 0", "    if x != y:\n        return 0\n    else:\n        return 1"),
 ]
